@@ -67,6 +67,7 @@ inductive MErr where
   | short                   -- io.ErrShortBuffer out of an extension's Read
   | ext (cls : String)      -- any other error of an extension's Read
   | length                  -- "utls: unexpected ClientHello length"
+  | tooLong                 -- "utls: extensions too long to be encoded in ClientHello" / "utls: ClientHello too long to be encoded"
   deriving DecidableEq, Repr
 
 /-- the loop `bufferedWriter.ReadFrom(ext)`: each `Read` gets the unused rest of a buffer of `total`
@@ -100,12 +101,20 @@ def headOf (f : Fixed) (exts : List Ext) : Bytes := [(1 : UInt8)] ++ u24 (helloL
 def marshalBody (total start : Nat) (exts : List Ext) : Except MErr Bytes :=
   if exts.isEmpty then .ok [] else (readAll total exts start).map (u16 (sumLen exts) ++ ·)
 
-/-- the writing half of `MarshalClientHelloNoECH`, after the padding extension was updated. -/
-def marshalCore (f : Fixed) (exts : List Ext) : Except MErr Bytes :=
+/-- the length fields of the extensions block (uint16) and of the handshake message (uint24) can hold
+the hello: what `MarshalClientHelloNoECH` checks before writing. -/
+def fits (f : Fixed) (exts : List Ext) : Bool := sumLen exts ≤ 0xffff && helloLenOf f exts ≤ 0xffffff
+
+/-- the writing half of `MarshalClientHelloNoECH`, after the padding extension was updated: the two
+length-field checks, the header, the `ReadFrom` loop, the final length check. -/
+def marshalWrite (f : Fixed) (exts : List Ext) : Except MErr Bytes :=
   match marshalBody (helloLenOf f exts + 4) ((headOf f exts).length + 2) exts with
   | .error e => .error e
   | .ok tail =>
     if (headOf f exts ++ tail).length ≠ 4 + helloLenOf f exts then .error .length else .ok (headOf f exts ++ tail)
+
+def marshalCore (f : Fixed) (exts : List Ext) : Except MErr Bytes :=
+  if fits f exts then marshalWrite f exts else .error .tooLong
 
 /-- `MarshalClientHelloNoECH`: the extension list afterwards (padding updated) and `Hello.Raw`. -/
 def marshal (pol : Policy) (f : Fixed) (exts : List Ext) : Except MErr (List Ext × Bytes) :=
@@ -152,6 +161,7 @@ inductive Outcome where
 
 def alertUnexpectedMessage := 10
 def alertIllegalParameter := 47
+def alertProtocolVersion := 70
 def alertDecodeError := 50
 def alertInternalError := 80
 def alertMissingExtension := 109
@@ -254,8 +264,22 @@ def utlsSection (c : Client) (h : SH) (shares : List (Nat × Bytes)) (idx : Nat)
     | .error e => .fail (.marshal e)
     | .ok (exts3, raw) => .sent exts3 raw
 
-/-- `processHelloRetryRequest` after `checkServerHelloOrHRR`, for a given cookie index. -/
+def versionsOf? : Ext → Option (List Nat)
+  | supportedVersions v => some v
+  | _ => none
+
+/-- `versionWasAdvertised(hello, VersionTLS13)` (/repo/u_handshake_client.go, right after
+`pickTLSVersion`): TLS 1.3 is listed by the first `SupportedVersionsExtension` of `uconn.Extensions`,
+or — without such an extension — `legacy_version` is at least TLS 1.3. -/
+def versionAdvertised (c : Client) : Bool :=
+  match c.exts.filterMap versionsOf? with
+  | vs :: _ => vs.contains 0x0304
+  | [] => decide (0x0304 ≤ c.fixed.vers)
+
+/-- what the client does with a TLS 1.3 HelloRetryRequest, for a given cookie index: the
+version-advertised check of `clientHandshake`, `checkServerHelloOrHRR`, `processHelloRetryRequest`. -/
 def hrrStepAt (c : Client) (h : SH) (fresh : Bytes) (idx : Nat) : Outcome :=
+  if ¬ versionAdvertised c then .abort alertProtocolVersion "version-not-advertised" else
   match checkSH c.fixed none h with
   | some o => o
   | none =>
@@ -311,10 +335,11 @@ def slot (shares : List (Nat × Bytes)) (ck : Option Bytes) (pol : Policy) (unp 
 
 /-- the HelloRetryRequests the property quantifies over, as a decidable predicate on the model's
 inputs: the common checks pass, no ECH extension, key_share (if any) in HelloRetryRequest form and
-selecting a group that is listed, not yet shared and one `generateECDHEKey` serves; something changes
+selecting a group that is listed, not yet shared and one `generateECDHEKey` serves; TLS 1.3 was
+advertised on the wire; something changes
 (group or cookie); the client offers a key_share extension, has no PSK in use and no real ECH. -/
 def validHRR (c : Client) (h : SH) : Bool :=
-  (checkSH c.fixed none h).isNone && !h.ech && h.share == 0 &&
+  versionAdvertised c && (checkSH c.fixed none h).isNone && !h.ech && h.share == 0 &&
   (h.group == 0 ||
     ((curvesOf c.defaultCurves c.exts).contains h.group && !(sharesOf c.exts).any (·.1 == h.group) && classical h.group)) &&
   (h.group != 0 || h.cookie.isSome) &&
